@@ -1,0 +1,39 @@
+//go:build verif
+// +build verif
+
+package linker
+
+import (
+	"reflect"
+	"unsafe"
+
+	"github.com/evanw/esbuild/internal/sourcemap"
+)
+
+// Thin wrappers (no logic) used by the verification harness in /verif (C18,
+// C19): the same entry points as in export_verif_c18.go with the "isCSS" flag
+// of the intermediate output.  The flag is set through reflection so that this
+// file also compiles against a tree in which the field does not exist (revert
+// checks); there the flag is simply ignored.
+
+func verifSetIsCSS(out *intermediateOutput, isCSS bool) {
+	f := reflect.ValueOf(out).Elem().FieldByName("isCSS")
+	if f.IsValid() && f.Kind() == reflect.Bool {
+		reflect.NewAt(f.Type(), unsafe.Pointer(f.UnsafeAddr())).Elem().SetBool(isCSS)
+	}
+}
+
+func (v *VerifLinker) SubstituteFinalPathsKind(hasPieces bool, pieces []VerifPiece, joinerBytes []byte, fromRelDir string, isCSS bool) ([]byte, []sourcemap.SourceMapShift) {
+	out := verifToOutput(hasPieces, pieces, joinerBytes)
+	verifSetIsCSS(&out, isCSS)
+	j, shifts := v.c.substituteFinalPaths(out, func(finalRelPathForImport string) string {
+		return v.c.pathBetweenChunks(fromRelDir, finalRelPathForImport)
+	})
+	return j.Done(), shifts
+}
+
+func (v *VerifLinker) AccurateFinalByteCountKind(hasPieces bool, pieces []VerifPiece, joinerBytes []byte, chunkFinalRelDir string, isCSS bool) int {
+	out := verifToOutput(hasPieces, pieces, joinerBytes)
+	verifSetIsCSS(&out, isCSS)
+	return v.c.accurateFinalByteCount(out, chunkFinalRelDir)
+}
